@@ -197,6 +197,10 @@ def run_case(case, tier="quick"):
         if ref is not None:
             if solver_artifact(case, tier, r):
                 return inconclusive("solver artefact: solved only with HiGHS presolve off", labels)
+            if cyc:
+                # does any solution exist within the documented repetition caps?  (obj_re = +inf: any capped solution refutes)
+                ceg = inst.cap_explains_gap(r.model, ref_desc, best_of, float("inf"), 0.0)
+                facts["cap_explains_gap"] = "undecided" if ceg is None else ceg
             return violation("unsolved", f"{cls}(k={keff}) not solved although a solution with total slack {ref} exists: {ref_desc}", labels, facts=facts)
         labels.add("unsolved")
         return ok(labels, False, facts)
